@@ -25,7 +25,7 @@ INV (for every tx i):
 """
 from run import Spec
 import harness as hz
-from translate import Loc, VAgg, VRef
+from translate import Loc, VAgg, VRef, VUnit
 from c15 import snapshot
 import sched_common as sc
 
@@ -335,6 +335,9 @@ def specs(tier):
     out = [Spec("completion_n3", build_completion(3), cfg=cfg(3), unwind=14, timeout=3600,
                 desc="sequential: from an arbitrary INV state (nothing executing) repeated next()/remove()/commit() finishes the block",
                 bounds={"n": 3, "threads": 1, "rounds": 11})]
+    out.append(Spec("refine_execute_task_n3", build_refine_exec(3), cfg=cfg_refine(3), unwind=6, timeout=2700,
+                    desc="refinement: from any invariant graph state, the graph / status effect of the REAL Scheduler::execute_task (ghost executor: Ok / Err, any blocker set) "
+                         "equals the scripted finishing role (S / B / U / K) the inductive steps use", bounds={"n": 3, "threads": 1, "locations": 1}))
     for p in SINGLES:
         out.append(Spec(f"step_{p}_n3", build_pair(3, list(p)), cfg=cfg(3), unwind=6, timeout=900,
                         desc=f"one role alone from an arbitrary INV state: {p} " + ROLE_DOC,
@@ -368,3 +371,133 @@ def specs(tier):
         for p in HARD:
             out.append(Spec(f"step_{p}_n3", build_pair(3, list(p)), cfg=cfg(3), unwind=6, timeout=3600, desc=f"roles {' || '.join(p)}", bounds={"n": 3, "threads": len(p)}))
     return out
+
+
+# ------------------------------------------------------------------------------------------------ refinement: the scripted roles are what the real code does
+def exec_stub_outcome(N):
+    def stub(tr, c):
+        """executor.execute_incarnation -> solver-chosen outcome: Ok / Err, with an arbitrary set of estimate blockers below the tx"""
+        d = c.dest()
+        res, acc = d.node.f("result"), d.node.f("accesses")
+        rs, ws, bt = acc.f("read_set"), acc.f("write_set"), acc.f("blocking_txs")
+        for k in range(bt.f("present").cap):
+            tr.emit(f"{bt.f('present').elem.name}{hz.sub(d.idxs + [str(k)])} = blk[{k}];" if k < N else f"{bt.f('present').elem.name}{hz.sub(d.idxs + [str(k)])} = 0;")
+        tr.emit(f"{rs.f('present').elem.name}{hz.sub(d.idxs + ['0'])} = 0; {rs.f('keys').elem.fields[0].name}{hz.sub(d.idxs + ['0'])} = 0;")
+        tr.emit(f"{ws.f('present').elem.name}{hz.sub(d.idxs + ['0'])} = (!exec_err && wnew0); {ws.f('keys').elem.fields[0].name}{hz.sub(d.idxs + ['0'])} = 0;")
+        tr.emit(f"{tr.lv(Loc(acc.f('blocked_by_beneficiary'), d.idxs))} = 0;")
+        oki, erri = res.vindex("Ok"), res.vindex("Err")
+        e = res.variants[erri][1].fields[0]
+        tr.emit(f"if (exec_err) {{ {tr.lv(Loc(res.discr, d.idxs))} = {erri}; {tr.lv(Loc(e.discr, d.idxs))} = err_invalid ? {e.vindex('Transaction')} : {e.vindex('Custom')}; "
+                f"{tr.lv(Loc(e.variants[e.vindex('Transaction')][1].fields[0].fields[0], d.idxs))} = 9; }} else {{ "
+                f"{tr.lv(Loc(res.discr, d.idxs))} = {oki}; {tr.lv(Loc(res.variants[oki][1].fields[0].fields[0], d.idxs))} = 7; }}")
+    return stub
+
+
+def build_refine_exec(N):
+    """the graph side of the REAL Scheduler::execute_task equals the scripted finishing role used in the inductive steps"""
+    def b(tr):
+        import c02
+        H = hz.Harness(tr, "c16_refine_exec")
+        S = H.local("S", "Scheduler<DB>")
+        k = K(H, N, S)
+        k2 = c02.K(H, S, N)
+        D = H.nav(S, "tx_dependency"); C = H.nav(S, "scheduler_ctx.committed")
+        k.freeze(D)
+        sc.init_sched(H, S, N); sc.init_ctx(H, S, N); sc.init_tx_tables(H, S, N, 1)
+        H.cvar("ph", "unsigned char", dims=[N], shared=False); H.cvar("la", "usize", dims=[N], shared=False); H.cvar("cd", "usize", shared=False)
+        H.cvar("instep", "_Bool", dims=[N], shared=False)
+        k.havoc(D, C, "ph", "la", "cd")          # any invariant state of the graph (committed boundary = S.scheduler_ctx.committed)
+        k.tie_status("ph")
+        H.cvar("blk", "_Bool", dims=[N], shared=False); H.cvar("exec_err", "_Bool", shared=False); H.cvar("err_invalid", "_Bool", shared=False)
+        H.cvar("wnew0", "_Bool", shared=False); H.cvar("T", "usize", shared=False); H.cvar("bd", "usize", shared=False); H.cvar("blocked", "_Bool", shared=False)
+        H.c(f"T = nondet_usize(); __CPROVER_assume(T < {N} && ph[T] == 1); exec_err = nondet_bool(); err_invalid = nondet_bool(); wnew0 = nondet_bool();")
+        H.c(f"{k2.inc('T')} = 2;")
+        H.c(f"{k2.ctx('finality')} = nondet_usize(); __CPROVER_assume({k2.ctx('committed')} <= {k2.ctx('finality')} && {k2.ctx('finality')} <= T);")
+        H.c(f"{k2.ctx('logical_clock')} = 5; {k2.ctx('validation')} = nondet_usize(); __CPROVER_assume({k2.ctx('validation')} <= {N});")
+        H.c(f"bd = {N}; blocked = 0;")
+        for i in range(N):
+            H.c(f"blk[{i}] = nondet_bool(); if ({i} >= T) blk[{i}] = 0; if (blk[{i}]) {{ blocked = 1; }}")
+        # previous result of T: arbitrary (none / one location)
+        H.c(f"{H.lv(k2.trn, 'd', ['T'])} = nondet_bool(); {H.lv(k2.trn, 'Some.0.execute_result.d', ['T'])} = 0; {k2.ws_present('T')} = nondet_bool(); "
+            f"{H.lv(k2.trn, 'Some.0.write_set.keys.e.id', ['T', 0])} = 0; {k2.rs_present('T')} = 0;")
+        H.c(f"{k2.mv_key()} = nondet_bool();")
+        for a_ in range(N):
+            H.c(f"{k2.mv_p(a_)} = nondet_bool(); {k2.mv_inc(a_)} = nondet_usize(); {k2.mv_est(a_)} = nondet_bool();")
+        pre_d = snapshot(H, D, "pre_dep"); pre_t = snapshot(H, H.nav(S, "tx_states"), "pre_txs")
+        t2 = H.local("taskr", "Option<Task>")
+        H.call("Scheduler::execute_task", [H.ref(S), VUnit(), VUnit(), VAgg([H.val("T"), H.val("2")])], t2)
+        real_d = snapshot(H, D, "real_dep"); real_t = snapshot(H, H.nav(S, "tx_states"), "real_txs")
+        TS = H.nav(S, "tx_states")
+        for i in range(N):
+            H.c(f"instep[{i}] = 1;")
+        cls = lambda e: f"(({e}) == {ST['Initial']} || ({e}) == {ST['Conflict']} ? 0 : (({e}) == {ST['Executing']} ? 1 : 2))"
+
+        def restore():
+            H.c(f"{H.lv(D, 'index')} = {H.lv(pre_d, 'index')};")
+            for i in range(N):
+                for pth in ("dependent_state.e.locked", "dependent_state.e.data.onboard", "dependent_state.e.data.dependency.d",
+                            "dependent_state.e.data.dependency.Some.0", "affect_txs.e.locked"):
+                    H.c(f"{H.lv(D, pth, [i])} = {H.lv(pre_d, pth, [i])};")
+                for j in range(N):
+                    H.c(f"{H.lv(D, 'affect_txs.e.data.present.e', [i, j])} = {H.lv(pre_d, 'affect_txs.e.data.present.e', [i, j])};")
+                for pth in ("e.locked", "e.data.status.d", "e.data.incarnation"):
+                    H.c(f"{H.lv(TS, pth, [i])} = {H.lv(pre_t, pth, [i])};")
+            H.c(f"{k.tlk('T')} = 1;")
+
+        def same():
+            sd, st_ = k.acc(D, C), k.acc(real_d, C)
+            cs = [f"{sd['idx']} == {H.lv(real_d, 'index')}"]
+            for i in range(N):
+                cs.append(f"{sd['onb'](i)} == {st_['onb'](i)} && {sd['dd'](i)} == {st_['dd'](i)} && ({sd['dd'](i)} == 0 || {sd['dv'](i)} == {st_['dv'](i)})")
+                for j in range(N):
+                    cs.append(f"{sd['aff'](i, j)} == {st_['aff'](i, j)}")
+                rs_ = H.lv(real_t, "e.data.status.d", [i]); ri = H.lv(real_t, "e.data.incarnation", [i])
+                cs.append(f"{cls(k.status(i))} == {cls(rs_)} && {H.lv(TS, 'e.data.incarnation', [i])} == {ri} && !{H.lv(real_t, 'e.locked', [i])}")
+            return " && ".join(f"({c_})" for c_ in cs)
+        rdd, rdv = H.lv(real_d, "dependent_state.e.data.dependency.d", ["T"]), H.lv(real_d, "dependent_state.e.data.dependency.Some.0", ["T"])
+        H.c(f"bd = ({rdd} == 1) ? {rdv} : {N};")
+        for nm in ("same_S", "same_B", "same_U", "same_K"):
+            H.cvar(nm, "_Bool", shared=False)
+            H.c(f"{nm} = 0;")
+        # role S: remove(t, true), status done, hand-off dispatch through the real execution_task
+        restore()
+        k.finish(D, C, "T", "S", "ph", "la")
+        H.c(f"same_S = {same()};")
+        # role B: wait for a predecessor -- ANY predecessor is acceptable (the graph is advisory); the candidate is read off the real post-state
+        restore()
+        H.c("if (bd < T) {")
+        H.call("TxDependency::add", [H.ref(D), H.val("T"), VAgg([H.val("bd")], variant="Some")])
+        H.c(f"{k.status('T')} = {ST['Conflict']}; {k.tlk('T')} = 0;")
+        H.c(f"same_B = {same()};")
+        H.c("}")
+        # role U: re-queue without a blocker
+        restore()
+        H.call("TxDependency::add", [H.ref(D), H.val("T"), VAgg([], variant="None")])
+        H.c(f"{k.status('T')} = {ST['Conflict']}; {k.tlk('T')} = 0;")
+        H.c(f"same_U = {same()};")
+        # role K: own commit barrier
+        restore()
+        H.call("TxDependency::key_tx", [H.ref(D), H.val("T"), k.reader(C)])
+        H.c(f"{k.status('T')} = {ST['Conflict']}; {k.tlk('T')} = 0;")
+        H.c(f"same_K = {same()};")
+        H.assert_(f"!{H.lv(S, 'abort')} || (exec_err && !blocked)", "only an unblocked error can abort")
+        H.assert_("(blocked || exec_err) || same_S",
+                  "an unblocked successful attempt acts on the graph exactly like the scripted role S: remove(t, true), status done, hand-off dispatched through execution_task")
+        H.assert_("!(blocked || exec_err) || same_B || same_U || same_K",
+                  "a blocked or failed attempt acts on the graph like one of the scripted non-success roles (wait for SOME predecessor / re-queue / own commit barrier) "
+                  "and leaves the transaction queued with its state lock released")
+        H.cover("blocked && bd < T", "blocked: waits for a predecessor"); H.cover(f"blocked && bd == {N}", "blocked but re-queued without a blocker (all blockers already final)")
+        H.cover("!blocked && exec_err", "plain error: barrier"); H.cover(f"!blocked && !exec_err && {H.lv(t2, 'd')} == 1", "success with a task handed back"); H.cover("blocked && same_B && !same_U", "blocked: distinguishable wait for a predecessor")
+        return H
+    return b
+
+
+def cfg_refine(N):
+    import c02
+    stubs = dict(sc.bene_true_stubs())
+    stubs["<impl ParallelTransactionExecutor as ParallelTransactionExecutor>::execute_incarnation"] = exec_stub_outcome(N)
+    c = sc.mv_cfg(N, L=1, stubs=stubs)
+    c.update({"cap": N, "set_iter_cap": N})
+    c["loops"] = {"Scheduler::execute_task": {"*": (3, "assert")}, "Scheduler::mark_mv_estimate": {"*": (3, "assert")},
+                  "ExecutionFrontier::advance": {"*": (N + 2, "assert")}, "TxDependency::remove": {"*": (N + 1, "assert")}}
+    return c
